@@ -177,9 +177,10 @@ def run(tier, seed, replay=None):
         res.violation("build", err, dict(kind="build"), False)
         return res.finish()
     thorough = tier == "thorough"
+    rp_data = {}
     if replay:
-        rp = json.load(open(replay))
-        scripts = [rp["script"]] if "script" in rp else [witness_script()]
+        rp_data = json.load(open(replay))
+        scripts = [rp_data["script"]] if "script" in rp_data else []
     else:
         scripts = [witness_script()] + gen_scripts(seed, 4000 if thorough else 480, thorough)
     scripts = cc.staged(exe, scripts, lambda s_, g_: bool(cc.pred_c03(cc.go_view(s_, g_))))
@@ -235,6 +236,15 @@ def run(tier, seed, replay=None):
 
     # stress: many callers, random reply order, unsolicited frames with random (and colliding) ids
     stress = []
+    if replay and "stress" in rp_data:
+        stress = [rp_data["stress"]]
+        sg, _ = cc.run_go(exe, stress, shards=1, test="TestVerifClientStress", timeout=900)
+        for rq, tr in zip(stress, sg):
+            evals += 1
+            for sig, text in (cc.judge_stress(tr)[PID.lower()] if tr else [("harness-run", "no trace")]):
+                if sig not in reported:
+                    reported.add(sig)
+                    res.violation(sig, "%s [stress %s]" % (text, rq.get("id")), dict(kind="stress", stress=rq))
     if not replay:
         rnd = random.Random(seed + 1)
         nst = 12 if thorough else 4
